@@ -36,7 +36,7 @@ class ViewGetShape(Family):
         r = v.row()
         ctx.add_index(r + 1, r - 1)
         ctx.prove("post.lengths[r]==L(r)", sh.lengths.get(r) == v.L(r))
-        ctx.prove("post.starts[0]==0", sh.starts.get(0) == 0)
+        ctx.prove("post.starts[0]==0", z3.Implies(n > 0, sh.starts.get(0) == 0))
         ctx.prove("post.starts[r+1]==starts[r]+L(r)", z3.Implies(r + 1 < n, sh.starts.get(r + 1) == sh.starts.get(r) + v.L(r)))
         ctx.prove("post.view untouched", z3.BoolVal(v.obj._codes.buf.writes == 0))
 
